@@ -14,3 +14,42 @@ class Engine(DbEngine):
             "non-trivial = distinct history with >= 2 stores")
     trusted = DbEngine.db_trusted
     assumptions = ["event-map bytes (stats.event_bytes) may grow on a failed store: explicitly outside the property"]
+
+    def generate(self, rng, tier):
+        import random
+        import common as C
+        from dbgen import HistGen, AUTHORS, fake_id
+        out = super().generate(rng, tier)
+        # one request with MANY effective targets and one target that makes it fail: whatever batching the
+        # implementation applies while it works through the tags, a failed request must leave nothing behind
+        for i in range(3 if tier == "quick" else 40):
+            sub = random.Random(rng.getrandbits(64))
+            g = HistGen(sub, {"new": 1}, 0).run()
+            me, other = AUTHORS[0], AUTHORS[1]
+            n = sub.choice([127, 128, 129, 200]) if tier == "quick" else sub.choice([64, 127, 128, 129, 255, 256, 257, 300])
+            own = []
+            for j in range(n):
+                e = g.new_event(kind=sub.choice([1, 1, 7]), pk=me, created=1000 + j, tags=[])
+                e["content"] = b"n%d" % j
+                e["id"] = fake_id(e)
+                g.op_store(e)
+                g.note_event(e)
+                own.append(e)
+            foreign = g.new_event(kind=1, pk=other, created=50, tags=[])
+            g.op_store(foreign)
+            tags = [[b"e", e["id"].hex().encode()] for e in own]
+            bad = [b"e", foreign["id"].hex().encode()]
+            pos = sub.choice([len(tags), len(tags), len(tags) - 1, 130 if n > 130 else len(tags)])
+            tags.insert(pos, bad)
+            g.op_store(g.new_event(kind=5, pk=me, created=5000, tags=tags))
+            if sub.random() < 0.5:
+                g.op_store(own[0])           # a resubmission: still a duplicate, not "deleted"
+            # observe right before and right after the request (and at the very end)
+            obs = "obs %s %s" % (C.tl(C.tb(i_) for i_ in g.ids), C.tl("%s %s %s" % (C.tn(k_), C.tb(a_), C.tb(d_)) for k_, a_, d_ in g.addrs))
+            parts = ["dbhist " + C.tl(C.tb(n_) for n_ in g.names), "; " + obs]
+            for n_, op in enumerate(g.ops):
+                parts.append("; " + g.render_op(op))
+                if n_ >= n:
+                    parts.append("; " + obs)
+            out.append(("big-failing-request", " ".join(parts)))
+        return out
